@@ -87,14 +87,15 @@ def execute(ev, case, want_pops=False):
     """run the real parser on the prepared sentence"""
     sent = ev.sent
     warm = warmup_sentences(sent, int(case.get('warmup') or 0))
+    via_pool = bool(case.get('via_pool'))       # results (and grammar, categories) cross a pickle boundary
     try:
         if want_pops and not warm:
             with native.PopTrace() as tr:
-                results, docs, faults = native.run_parser(case, ev.grammar, sentences=[sent])
+                results, docs, faults = native.run_parser(case, ev.grammar, sentences=[sent], via_pool=via_pool)
             ev.pops = tr.pops if tr.enabled else None
         else:
             # (the pop trace has no sentence boundaries: it is taken only when the sentence is alone in its call)
-            results, docs, faults = native.run_parser(case, ev.grammar, sentences=warm + [sent],
+            results, docs, faults = native.run_parser(case, ev.grammar, sentences=warm + [sent], via_pool=via_pool,
                                                       max_chunk_size=max(20, len(warm) + 1))
             if len(results) == len(warm) + 1:
                 results, docs = results[len(warm):], docs[len(warm):]
